@@ -18,21 +18,41 @@ with the size known by construction for pure renamings/permutations and pure del
 Requested modifications: all shipped single-residue modifications of charmm/amber, the residue presented with
 the modification's atoms; the patched reference is compared by atom names with what block + modification
 declare (expected_patch, independent of _patch_modification) and with the Lean model shared with C19 (`patch`).
+
+Extension round: lean/VermouthModel/C04_Ref.lean models make_reference AROUND the matcher, _get_reference_residue /
+_patch_modification with their guards and the whole pipeline (theorems: lean/VermouthProps/C04_Ref.lean, C04_Patch.lean,
+C04_Pipeline.lean).  RefSpy hooks _get_reference_residue, add_element_attr, nx.relabel_nodes and ISMAGS inside
+make_reference and records, per residue, the reference returned, the graphs before the element guess, the relabelling
+dictionaries, the graphs / node predicate / cache handed to the matcher and the answers it yields; protocol lines
+`getref`, `mkref`, `pipeline` compare the model with those records exactly, `mcismem` checks every recorded answer of
+the real matcher against the Lean reference.  Families ref-* (degenerate references, atoms without element / name,
+refused requests, synthetic modifications) and peptide-* (whole peptides through AnnotateMutMod + RepairGraph listed
+in several atom orders: the result must not depend on the order).
 """
 import copy
 import itertools
 import logging
+import string
 from common import *
 
 chk = Check('C04')
+if os.environ.get('VERIF_DEBUG'):
+    import faulthandler
+    faulthandler.register(signal.SIGUSR1, all_threads=True)
 chk.extra['rule'] = ('a case = molecule of 1-3 residues, each a presentation (renamed X1..Xn / names shuffled within an '
                      'element / atom order permuted / sparse keys / atoms removed / extra atoms attached / mutation or '
                      'modification request) of a block of charmm, amber or gromos (or of its hydrogen-free skeleton); '
                      'non-trivial if the first residue has >= 4 atoms and its presentation differs from the block '
-                     '(renamed, permuted, missing or extra atoms); distinct = distinct protocol line')
-chk.trusted.append('harness/c04.py: presentation generator, spy around make_reference, encoding of node dictionaries '
+                     '(renamed, permuted, missing or extra atoms); distinct = distinct protocol line.  Per molecule one '
+                     'line for repair GIVEN the match plus, per residue, one line for _get_reference_residue and one for '
+                     'make_reference around the matcher (inputs recorded by a spy inside make_reference, real ISMAGS '
+                     'answers included) and one line for the whole pipeline.  Further families: degenerate references of '
+                     'a synthetic force field, atoms without element / name, refused requests, and peptides of 2-4 '
+                     'residues through AnnotateMutMod + RepairGraph listed in several atom orders')
+chk.trusted.append('harness/c04.py: presentation generator, spy around and inside make_reference (hooks on '
+                   '_get_reference_residue, add_element_attr, nx.relabel_nodes, ISMAGS), encoding of node dictionaries '
                    '(atomname/element/PTM_atom split off, values as repr strings, position/graph not sent), oracle')
-chk.lean(['VermouthProps.C04'], 'driver_c04')
+chk.lean(['VermouthProps.C04', 'VermouthProps.C04_Ref', 'VermouthProps.C04_Patch', 'VermouthProps.C04_Pipeline'], 'driver_c04')
 
 import networkx as nx
 import numpy as np
@@ -51,8 +71,34 @@ class CaseTimeout(Exception):
     pass
 
 
+_ARMED = [False]
+
+
 def _vt(signum, frame):
+    if not _ARMED[0]:
+        return
+    # Never raise inside coverage.py (anchor line coverage of common.py): its collector holds a non-reentrant lock
+    # between lock_data() and unlock_data(); an exception thrown in there leaves the lock taken and the next traced
+    # call dead-locks the whole check.  The timer repeats, so the time-out comes a quarter of a second later.
+    f, depth = frame, 0
+    while f is not None and depth < 8:
+        if '/coverage/' in f.f_code.co_filename:
+            return
+        f, depth = f.f_back, depth + 1
     raise CaseTimeout()
+
+
+def arm(seconds):
+    """CPU-time limit for a call into the real code.  The timer REPEATS: an exception raised by the handler while the
+    interpreter runs a finaliser (generator close, __del__) or a logging handler is swallowed there, and a one-shot
+    timer would then leave the search unbounded."""
+    _ARMED[0] = True
+    signal.setitimer(signal.ITIMER_VIRTUAL, seconds, 0.25)
+
+
+def disarm():
+    _ARMED[0] = False
+    signal.setitimer(signal.ITIMER_VIRTUAL, 0)
 
 
 signal.signal(signal.SIGVTALRM, _vt)
@@ -102,6 +148,77 @@ def load_ffs():
 
 
 FFS = load_ffs()
+
+
+def synth_ff():
+    """a small force field of degenerate blocks and modifications (built afresh for every case: the real code
+    writes guessed elements into the blocks of the force field)"""
+    from vermouth.molecule import Modification
+    ff = vermouth.forcefield.ForceField(name='synth')
+
+    def blk(name, atoms, edges):
+        b = Block(force_field=ff)
+        b.name = name
+        for i, (nm, el) in enumerate(atoms):
+            d = dict(atomname=nm, resname=name, atype='T' + nm)
+            if el is not None:
+                d['element'] = el
+            b.add_node(i, **d)
+        b.add_edges_from(edges)
+        ff.blocks[name] = b
+
+    def mod(name, nodes, edges):
+        m = Modification(force_field=ff, name=name)
+        for k, (nm, ptm, el) in nodes:
+            d = dict(atomname=nm, PTM_atom=ptm)
+            if el:
+                d['element'] = el
+            m.add_node(k, **d)
+        m.add_edges_from(edges)
+        ff.modifications[name] = m
+
+    blk('EMP', [], [])
+    blk('XEN', [('XE1', 'Xe'), ('XE2', 'Xe'), ('XE3', 'Xe')], [(0, 1), (1, 2)])
+    blk('ETH', [('C1', 'C'), ('C2', 'C'), ('O1', 'O'), ('H1', 'H'), ('H2', 'H')], [(0, 1), (1, 2), (0, 3), (2, 4)])
+    blk('PRO3', [('N1', 'N'), ('C1', 'C'), ('C2', 'C'), ('C3', 'C'), ('O1', 'O'), ('O2', 'O'), ('H1', 'H')],
+        [(0, 1), (1, 2), (2, 3), (3, 4), (3, 5), (0, 6)])
+    blk('DIS', [('C1', 'C'), ('C2', 'C'), ('O3', 'O'), ('N4', 'N'), ('H5', 'H'), ('ZN', 'Zn')], [(0, 1), (1, 2), (3, 4)])
+    blk('NOEL', [('CA', None), ('CB', None), ('1HB', None), ('OG', None)], [(0, 1), (1, 2), (1, 3)])
+    blk('NOELX', [('CA', 'C'), ('CB', 'C'), ('1HB', 'H'), ('OG', 'O')], [(0, 1), (1, 2), (1, 3)])
+    A, N = False, True
+    mod('GOOD', [('C1', ('C1', A, None)), ('P1', ('P1', N, 'P')), ('O9', ('O9', N, 'O')), ('O8', ('O8', N, 'O'))],
+        [('C1', 'P1'), ('P1', 'O9'), ('P1', 'O8')])
+    mod('TWO', [('C1', ('C1', A, None)), ('C2', ('C2', A, None)), ('N9', ('N9', N, 'N'))],
+        [('C1', 'C2'), ('C1', 'N9'), ('C2', 'N9')])
+    mod('FIRST', [('S9', ('S9', N, 'S')), ('O1', ('O1', A, None)), ('F9', ('F9', N, 'F'))], [('S9', 'O1'), ('S9', 'F9')])
+    mod('NOA', [('P1', ('P1', N, 'P')), ('P2', ('P2', N, 'P'))], [('P1', 'P2')])
+    mod('BADA', [('C1', ('C1', A, None)), ('O1', ('O1', A, None)), ('P1', ('P1', N, 'P'))], [('C1', 'O1'), ('C1', 'P1')])
+    mod('BADB', [('C1', ('C1', A, None)), ('C2', ('C2', A, None)), ('P1', ('P1', N, 'P'))], [('C1', 'P1')])
+    mod('NOANCH', [('QQ', ('QQ', A, None)), ('P1', ('P1', N, 'P'))], [('QQ', 'P1')])
+    mod('DUP', [('a', ('C1', A, None)), ('b', ('C1', A, None)), ('P1', ('P1', N, 'P'))], [('a', 'P1')])
+    return ff, dict(ff.blocks)
+
+
+def get_ff(name):
+    return synth_ff() if name == 'synth' else FFS[name]
+
+
+def mod_fits(block, mod):
+    """independent statement of when a modification can be laid on a block: every anchor has exactly one namesake,
+    no two anchors share one, and two anchors are bonded in the modification iff their namesakes are in the block"""
+    by = {}
+    for n in block.nodes:
+        by.setdefault(block.nodes[n].get('atomname'), []).append(n)
+    anchors = [n for n in mod.nodes if not mod.nodes[n].get('PTM_atom')]
+    img = {}
+    for a in anchors:
+        c = by.get(mod.nodes[a].get('atomname'), [])
+        if len(c) != 1:
+            return False
+        img[a] = c[0]
+    if len(set(img.values())) != len(img):
+        return False
+    return all(mod.has_edge(a, b) == block.has_edge(img[a], img[b]) for a, b in itertools.combinations(anchors, 2))
 
 
 # ----------------------------------------------------------------------------
@@ -174,7 +291,14 @@ AA = ['GLY', 'ALA', 'SER', 'VAL', 'LEU', 'ILE', 'THR', 'ASP', 'ASN', 'GLU', 'GLN
 def present(spec):
     """spec (JSON-able dict) -> Molecule.  Residues: list of dicts
        {ff, block, names: keep|x|shuffle|swap, perm, missing, extra, mutate?, modify?, seed}; keys: dense|sparse|random"""
-    ff = FFS[spec['residues'][0]['ff']][0]
+    ffcache = {}
+
+    def ffof(name):
+        if name not in ffcache:
+            ffcache[name] = get_ff(name)
+        return ffcache[name]
+
+    ff = ffof(spec['residues'][0]['ff'])[0]
     mol = Molecule(force_field=ff)
     rng = random.Random(spec['seed'])
     keymode = spec.get('keys', 'dense')
@@ -199,10 +323,10 @@ def present(spec):
     prev_heavy = None
     atomid = 0
     for ridx, rs in enumerate(spec['residues']):
-        block = FFS[rs['ff']][1][rs['block']]
+        block = ffof(rs['ff'])[1][rs['block']]
         if rs.get('with_mod'):
             # the residue is presented WITH the atoms of the requested modification(s)
-            block = expected_patch(block, [FFS[rs['ff']][0].modifications[m] for m in rs['modify']])
+            block = expected_patch(block, [ffof(rs['ff'])[0].modifications[m] for m in rs['modify']])
             if block is None:
                 raise KeyError('modification %s does not apply to %s' % (rs['modify'], rs['block']))
         nodes = list(block.nodes)
@@ -228,6 +352,19 @@ def present(spec):
         elif mode == 'swap' and len(nodes) >= 2:
             a, b = rng.sample(nodes, 2)
             names[a], names[b] = names[b], names[a]
+        elif mode == 'swapdeg':
+            # the names of two atoms of the same element with the same number of bonds (but not interchangeable in the
+            # block) are exchanged: everything about the residue matches the block name by name, except the bonds
+            cands = [(a, b) for a, b in itertools.combinations(nodes, 2)
+                     if block.nodes[a]['element'] == block.nodes[b]['element'] and block.degree[a] == block.degree[b]
+                     and set(block[a]) - {b} != set(block[b]) - {a}]
+            if cands:
+                a, b = rng.choice(cands)
+                names[a], names[b] = names[b], names[a]
+        elif mode == 'dup' and len(nodes) >= 2:
+            # two atoms carry the same name (ties in the sort of make_reference)
+            a, b = rng.sample(nodes, 2)
+            names[b] = names[a]
         removed = set(rng.sample(nodes, min(rs.get('missing', 0), max(len(nodes) - 1, 0))))
         if rs.get('missing_h'):
             hs = [n for n in nodes if block.nodes[n]['element'] == 'H' and n not in removed]
@@ -239,7 +376,7 @@ def present(spec):
         resid = ridx + 1 + spec.get('resid0', 0)
         common = dict(resname=rs.get('resname', rs['block']), resid=resid, chain='A')
         if rs.get('mutate'):
-            common['mutation'] = [rs['mutate']]
+            common['mutation'] = list(rs['mutate']) if isinstance(rs['mutate'], list) else [rs['mutate']]
         if rs.get('modify'):
             common['modification'] = list(rs['modify'])
         for n in order:
@@ -253,6 +390,27 @@ def present(spec):
         for u, v in block.edges:
             if u in key and v in key:
                 mol.add_edge(key[u], key[v])
+        # atoms without element / atom name (make_reference guesses the element from the first letter of the name and
+        # sorts nameless atoms last)
+        present_nodes = [n for n in order if n in key]
+        guessable = [n for n in present_nodes if isinstance(names[n], str) and
+                     next((c for c in names[n] if c in string.ascii_letters), None) == block.nodes[n]['element']]
+        for n in rng.sample(guessable, min(rs.get('noelem', 0), len(guessable))):
+            del mol.nodes[key[n]]['element']
+        for n in rng.sample(present_nodes, min(rs.get('noname', 0), len(present_nodes))):
+            del mol.nodes[key[n]]['atomname']
+        for n in rng.sample(present_nodes, min(rs.get('nonename', 0), len(present_nodes))):
+            if 'element' in mol.nodes[key[n]]:
+                mol.nodes[key[n]]['atomname'] = None
+        if rs.get('unguessable') and present_nodes:
+            n = rng.choice(present_nodes)
+            mol.nodes[key[n]].pop('element', None)
+            if rs['unguessable'] == 'digit':
+                mol.nodes[key[n]]['atomname'] = '123'
+            elif rs['unguessable'] == 'absent':
+                mol.nodes[key[n]].pop('atomname', None)
+            else:
+                mol.nodes[key[n]]['atomname'] = None
         heavy = [key[n] for n in order if n in key and block.nodes[n]['element'] != 'H'] or list(key.values())
         extras = []
         for i in range(rs.get('extra', 0)):
@@ -266,7 +424,8 @@ def present(spec):
         if prev_heavy and heavy and rs.get('link', True):
             mol.add_edge(rng.choice(prev_heavy), rng.choice(heavy))
         prev_heavy = heavy or prev_heavy
-        info.append(dict(key=key, removed=removed, extras=extras, block=block, resid=resid, spec=rs))
+        info.append(dict(key=key, removed=removed, extras=extras, block=block, resid=resid, spec=rs,
+                         ff=ffof(rs['ff'])[0], good=ffof(rs['ff'])[1]))
     return mol, info
 
 
@@ -282,9 +441,13 @@ class LogSpy(logging.Handler):
         self.records.append((record.levelno, getattr(record, 'type', None), record.getMessage()))
 
 
+NONAME = '\uffff'   # what make_reference itself puts for a missing atom name (get_default)
+
+
 def atom_enc(key, d):
     attrs = [[k, val(v)] for k, v in d.items() if k not in SKIP_ATTRS]
-    return [key, d.get('atomname'), elcode(d.get('element')), attrs,
+    name = d.get('atomname')
+    return [key, NONAME if name is None else name, elcode(d.get('element')), attrs,
             None if 'PTM_atom' not in d else int(bool(d['PTM_atom']))]
 
 
@@ -301,10 +464,11 @@ def snapshot_reference(mol, rg):
         match = [[idx[r], k] for r, k in node['match'].items()]
         common = [[k, val(v)] for k, v in node.items() if k not in RES_EXCLUDED and k not in SKIP_ATTRS]
         residues.append(dict(bnodes=bnodes, bedges=bedges, found=found, match=match, common=common,
-                             idx=idx, ref=ref, node=node, resid=node.get('resid')))
+                             idx=idx, ref=ref, node=node, resid=node.get('resid'), residx=residx))
     nodes = [atom_enc(k, mol.nodes[k]) for k in mol.nodes]
     edges = [[u, v] for u, v in mol.edges]
-    return dict(nodes=nodes, edges=edges, residues=residues)
+    return dict(nodes=nodes, edges=edges, residues=residues, kept=list(rg.nodes),
+                rg_edges=sorted(sorted(e) for e in rg.edges))
 
 
 def canon_events(records):
@@ -323,10 +487,104 @@ def canon_events(records):
     return out
 
 
+def name_state(d):
+    """protocol form of the 'atomname' entry: 0 = no such key, None = None, else the string"""
+    if 'atomname' not in d:
+        return 0
+    return d['atomname']
+
+
+def block_snapshot(blk):
+    idx = {n: i for i, n in enumerate(blk.nodes)}
+    return dict(nodes=[atom_enc(idx[n], blk.nodes[n]) for n in blk.nodes],
+                edges=sorted(sorted((idx[u], idx[v])) for u, v in blk.edges),
+                names=[blk.nodes[n].get('atomname') for n in blk.nodes])
+
+
+class RefSpy:
+    """records what make_reference does around the matcher: the reference _get_reference_residue returns, the
+    graphs before add_element_attr, the relabelling dictionaries, the graphs / node predicate / cache handed to
+    ISMAGS and the answers ISMAGS yields, in order"""
+
+    def __init__(self):
+        self.getref, self.addel, self.relabels, self.ismags = [], [], [], []
+        self.orig = (RG._get_reference_residue, RG.add_element_attr, RG.nx, RG.ISMAGS)
+        spy = self
+        o_getref, o_addel, o_nx, o_ismags = self.orig
+
+        def getref(residue, force_field):
+            rec = dict(resname=residue.get('resname'),
+                       mutation=list(residue['mutation']) if 'mutation' in residue else None,
+                       modification=list(residue['modification']) if 'modification' in residue else None)
+            spy.getref.append(rec)
+            try:
+                blk = o_getref(residue, force_field)
+            except Exception as err:
+                rec['error'] = err
+                raise
+            rec['block'] = block_snapshot(blk)
+            return blk
+
+        def addel(graph):
+            spy.addel.append(dict(residx=len(spy.getref) - 1,
+                                  nodes=[(n, name_state(graph.nodes[n]), graph.nodes[n].get('element'),
+                                          'element' in graph.nodes[n]) for n in graph.nodes],
+                                  edges=[(u, v) for u, v in graph.edges]))
+            return o_addel(graph)
+
+        class NxProxy:
+            def __getattr__(self, name):
+                return getattr(o_nx, name)
+
+            def relabel_nodes(self, G, mapping, copy=True):
+                spy.relabels.append((list(G.nodes), list(mapping.items()), len(spy.getref) - 1))
+                return o_nx.relabel_nodes(G, mapping, copy=copy)
+
+        class SpyISMAGS(o_ismags):
+            def __init__(self, graph, subgraph, node_match=None, edge_match=None, cache=None):
+                super().__init__(graph, subgraph, node_match=node_match, edge_match=edge_match, cache=cache)
+                self._rec = None
+                if cache is not None:       # the call of make_reference (the one of _patch_modification has no cache)
+                    self._rec = dict(graph=graph, subgraph=subgraph, node_match=node_match, cache=cache, answers=[],
+                                     exhausted=False, gen=None, residx=len(spy.getref) - 1)
+                    spy.ismags.append(self._rec)
+
+            def largest_common_subgraph(self, symmetry=True):
+                inner = super().largest_common_subgraph(symmetry)
+                rec = self._rec
+                if rec is None:
+                    return inner
+
+                def wrapped():
+                    for a in inner:
+                        rec['answers'].append(list(a.items()))
+                        yield a
+                    rec['exhausted'] = True
+                rec['gen'] = wrapped()
+                return rec['gen']
+
+        self.patch = (getref, addel, NxProxy(), SpyISMAGS)
+
+    def of_residue(self, i):
+        """(graphs before add_element_attr, relabelling calls, matcher call) recorded while residue i was processed"""
+        ad = [a for a in self.addel if a['residx'] == i]
+        rl = [r for r in self.relabels if r[2] == i]
+        im = [r for r in self.ismags if r['residx'] == i]
+        return ad, rl, (im[0] if len(im) == 1 else None), len(im)
+
+    def __enter__(self):
+        RG._get_reference_residue, RG.add_element_attr, RG.nx, RG.ISMAGS = self.patch
+        return self
+
+    def __exit__(self, *a):
+        RG._get_reference_residue, RG.add_element_attr, RG.nx, RG.ISMAGS = self.orig
+
+
 def run_real(mol, include_graph):
     """-> dict(status, snap, out, events, matches)"""
     captured = {}
     orig = RG.make_reference
+    refspy = RefSpy()
 
     def spy(m):
         rg = orig(m)
@@ -343,18 +601,25 @@ def run_real(mol, include_graph):
     RG.make_reference = spy
     res = dict(status='ok')
     t0 = time.time()
-    signal.setitimer(signal.ITIMER_VIRTUAL, CASE_TIMEOUT)
     try:
-        out = RG.RepairGraph(include_graph=include_graph).run_molecule(mol)
-        signal.setitimer(signal.ITIMER_VIRTUAL, 0)
-        res['out'] = out
+        try:
+            arm(CASE_TIMEOUT)
+            with refspy:
+                out = RG.RepairGraph(include_graph=include_graph).run_molecule(mol)
+            disarm()
+            res['out'] = out
+        finally:
+            disarm()
     except CaseTimeout:
+        disarm()
+        refspy.__exit__()
         res['status'] = 'timeout'
+        res.pop('out', None)
     except Exception as err:  # noqa
-        signal.setitimer(signal.ITIMER_VIRTUAL, 0)
+        disarm()
         res['status'] = 'error:%s:%s' % (type(err).__name__, str(err)[:200])
     finally:
-        signal.setitimer(signal.ITIMER_VIRTUAL, 0)
+        disarm()
         RG.make_reference = orig
         lg.handlers[:] = old_handlers
         lg.setLevel(old_level)
@@ -363,6 +628,7 @@ def run_real(mol, include_graph):
     res['snap'] = captured.get('snap')
     res['rg'] = captured.get('rg')
     res['records'] = spyh.records
+    res['spy'] = refspy
     return res
 
 
@@ -392,6 +658,10 @@ def oracle(mol_in, info, res):
                    if typ == 'missing-atom' and msg.startswith('Could not reconstruct')}
     by_resid = {r['resid']: r for r in snap['residues']}
     for inf in info:
+        if inf['resid'] not in by_resid:
+            errs.extend('residue %s (%s): %s' % (inf['resid'], inf['spec']['block'], e)
+                        for e in oracle_skipped(mol_in, inf, out, records))
+            continue
         rsnap = by_resid[inf['resid']]
         ref = rsnap['ref']          # the reference actually used (mutated / modified block)
         resid = inf['resid']
@@ -419,7 +689,8 @@ def oracle(mol_in, info, res):
             if out.nodes[k].get('element') != ref.nodes[bn].get('element'):
                 errs.append(tag + 'atom %s named %s has element %s, block says %s'
                             % (k, out.nodes[k]['atomname'], out.nodes[k].get('element'), ref.nodes[bn].get('element')))
-            if k in mol_in.nodes and mol_in.nodes[k].get('element') != out.nodes[k].get('element'):
+            if k in mol_in.nodes and (mol_in.nodes[k].get('element') or first_letter(mol_in.nodes[k].get('atomname'))) \
+                    != out.nodes[k].get('element'):
                 errs.append(tag + 'input atom %s of element %s was recognised as %s (%s)'
                             % (k, mol_in.nodes[k].get('element'), out.nodes[k]['atomname'], out.nodes[k].get('element')))
         for a, b in itertools.combinations(recog, 2):
@@ -459,7 +730,7 @@ def oracle(mol_in, info, res):
         if n_rec + n_unrec != n_in:
             errs.append(tag + 'recognised (%d) + unrecognised (%d) != atoms presented (%d)' % (n_rec, n_unrec, n_in))
         sp = inf['spec']
-        same_block = not sp.get('mutate') and not sp.get('modify')
+        same_block = not sp.get('mutate') and not sp.get('modify') and sp.get('resname', sp['block']) == sp['block']
         if same_block and not inf['extras']:
             # the residue is (isomorphic to) an induced subgraph of the block: nothing may be flagged
             if n_unrec:
@@ -480,6 +751,40 @@ def oracle(mol_in, info, res):
     return errs
 
 
+def oracle_skipped(mol_in, inf, out, records):
+    """a residue make_reference found no match for (it is not in the reference graph): allowed only when residue and
+    reference have no element in common; the residue must come back untouched and the failure must be logged"""
+    errs = []
+    sp = inf['spec']
+    mu = sp.get('mutate')
+    target = (mu[0] if isinstance(mu, list) else mu) if mu else sp.get('resname', sp['block'])
+    ref = inf['ff'].blocks.get(target)
+    keys = list(inf['key'].values()) + list(inf['extras'])
+    if ref is not None and not sp.get('modify'):
+        rel = {ref.nodes[n].get('element') or first_letter(ref.nodes[n].get('atomname')) for n in ref.nodes}
+        mel = {mol_in.nodes[k].get('element') or first_letter(mol_in.nodes[k].get('atomname')) for k in keys}
+        if rel & mel:
+            errs.append('no match at all was found although residue and reference share the elements %s' % sorted(rel & mel))
+    if not any(typ == 'inconsistent-data' and lvl >= 40 for lvl, typ, msg in records):
+        errs.append('residue without match: no error of type inconsistent-data was logged')
+    for k in keys:
+        if k not in out.nodes:
+            errs.append('residue without reference match: atom %s vanished' % k)
+            continue
+        a, b = mol_in.nodes[k], out.nodes[k]
+        ka = [x for x in a if x not in ('position', 'graph')]
+        kb = [x for x in b if x not in ('position', 'graph')]
+        if ka != kb or any(a[x] != b[x] for x in ka):
+            errs.append('residue without reference match: atom %s changed from %s to %s'
+                        % (k, {x: a[x] for x in ka}, {x: b[x] for x in kb}))
+        if set(out[k]) != set(mol_in[k]):
+            errs.append('residue without reference match: bonds of atom %s changed' % k)
+    added = [k for k in out.nodes if k not in mol_in.nodes and out.nodes[k].get('resid') == inf['resid']]
+    if added:
+        errs.append('residue without reference match: atoms %s were added' % added)
+    return errs
+
+
 def ref_by_name(ref):
     names = sorted(ref.nodes[n]['atomname'] for n in ref.nodes)
     edges = sorted(tuple(sorted((ref.nodes[u]['atomname'], ref.nodes[v]['atomname']))) for u, v in ref.edges)
@@ -492,7 +797,7 @@ def oracle_modified(mol_in, inf, rsnap, out, atoms):
     complete, with exactly the modification's atoms marked and bonded as declared"""
     errs = []
     sp = inf['spec']
-    ff, good = FFS[sp['ff']]
+    ff, good = inf['ff'], inf['good']
     want = expected_patch(good[sp['block']], [ff.modifications[m] for m in sp['modify'] if m != 'none'])
     if want is None:
         return errs
@@ -536,7 +841,7 @@ def oracle_modified(mol_in, inf, rsnap, out, atoms):
 
 def patch_line(sp):
     """protocol line for the Lean model of _patch_modification (shared with C19): unpatched block + modifications"""
-    ff, good = FFS[sp['ff']]
+    ff, good = get_ff(sp['ff'])
     blk = good[sp['block']]
     idx = {n: i for i, n in enumerate(blk.nodes)}
     bn = [atom_enc(idx[n], blk.nodes[n]) for n in blk.nodes]
@@ -584,6 +889,304 @@ def bfs_order(nodes, edges):
     return order
 
 
+
+# ----------------------------------------------------------------------------
+# make_reference / _get_reference_residue / the whole pipeline against their Lean models
+# ----------------------------------------------------------------------------
+from vermouth.graph_utils import make_residue_graph
+from vermouth.ismags import ISMAGS as REAL_ISMAGS
+
+NONE_CODE = elcode(None)      # stands for "no element attribute" in the pipeline encoding
+
+
+def enc_block(blk, order=None):
+    nodes = list(blk.nodes) if order is None else order
+    idx = {n: i for i, n in enumerate(nodes)}
+    return [[atom_enc(idx[n], blk.nodes[n]) for n in nodes], [[idx[u], idx[v]] for u, v in blk.edges]]
+
+
+def first_letter(name):
+    return next((c for c in name if c in string.ascii_letters), None) if isinstance(name, str) else None
+
+
+def prepare_inputs(mol_in):
+    """what make_residue_graph hands to make_reference, and the blocks of the force field BEFORE the run (the real
+    code writes guessed elements into them)"""
+    residues = make_residue_graph(mol_in)
+    ff = mol_in.force_field
+    reqs, blocks = [], {}
+    for i in residues.nodes:
+        node = residues.nodes[i]
+        mutation = list(node['mutation']) if 'mutation' in node else None
+        modification = list(node['modification']) if 'modification' in node else None
+        target = (mutation[0] if mutation else None) if mutation is not None else node.get('resname')
+        if target in ff.blocks and target not in blocks:
+            blocks[target] = enc_block(ff.blocks[target]) + [len(ff.blocks[target])]
+        common = [[k, val(v)] for k, v in node.items() if k not in RES_EXCLUDED and k not in SKIP_ATTRS]
+        reqs.append(dict(found=list(node['graph'].nodes), resname=node.get('resname'), mutation=mutation,
+                         modification=modification, common=common, target=target, resid=node.get('resid'),
+                         atoms=[[n, name_state(mol_in.nodes[n]),
+                                 elcode(mol_in.nodes[n]['element']) if 'element' in mol_in.nodes[n] else None]
+                                for n in node['graph'].nodes],
+                         edges=[[u, v] for u, v in node['graph'].edges]))
+    return dict(reqs=reqs, blocks=blocks, redges=sorted(sorted(e) for e in residues.edges),
+                nodes=[atom_enc(k, mol_in.nodes[k]) for k in mol_in.nodes], edges=[[u, v] for u, v in mol_in.edges])
+
+
+def enc_mods(ff, req, observed_names):
+    """the requested modifications; the atoms a modification adds are listed in the order in which the real code
+    numbered them (iteration order of a Python set of strings), when that was observed"""
+    out = []
+    rest = list(observed_names or [])
+    seen = set()
+    for m in req['modification'] or []:
+        if m == 'none' or m not in ff.modifications or m in seen:
+            if m in ff.modifications and m in seen:
+                k = len([n for n in ff.modifications[m].nodes if ff.modifications[m].nodes[n].get('PTM_atom')])
+                rest = rest[k:]
+            continue
+        seen.add(m)
+        mod = ff.modifications[m]
+        anchors = [n for n in mod.nodes if not mod.nodes[n].get('PTM_atom')]
+        new = [n for n in mod.nodes if mod.nodes[n].get('PTM_atom')]
+        obs, rest = rest[:len(new)], rest[len(new):]
+        if sorted(map(str, obs)) == sorted(str(mod.nodes[n].get('atomname')) for n in new):
+            byname = {}
+            for n in new:
+                byname.setdefault(mod.nodes[n].get('atomname'), []).append(n)
+            new = [byname[nm].pop(0) for nm in obs]
+        out.append([m] + enc_block(mod, anchors + new))
+    return out
+
+
+def err_kind(status, records, where):
+    """small enum for an exception of the real code"""
+    kind, msg = status.split(':', 2)[1:3]
+    if kind == 'ValueError' and msg.startswith('Can only mutate'):
+        return 'error mutate-twice'
+    if kind == 'IndexError':
+        return 'error empty-mutation'
+    if kind == 'ValueError' and msg.startswith('Cannot apply modification'):
+        name = ''
+        for lvl, typ, m in records:
+            if m.startswith('Modification ') and " doesn't fit on Block " in m:
+                name = m[len('Modification '):m.index(" doesn't fit on Block ")]
+        return 'error does-not-fit ' + enc(name)
+    if kind == 'KeyError':
+        key = msg.strip("'\"")
+        return ('error unknown-block ' if where == 'block' else 'error unknown-modification ') + enc(key)
+    if kind == 'ValueError' and 'has no atom name' in msg:
+        return 'error no-name'
+    if kind == 'ValueError' and 'no alphabetic' in msg:
+        return 'error no-alpha'
+    if kind == 'TypeError':
+        return 'error name-none'
+    return 'error other ' + kind
+
+
+def pull_more_answers(spy, limit=3, seconds=0.5):
+    """what ISMAGS would yield after the answer make_reference took (small residues only)"""
+    for rec in spy.ismags:
+        if rec['gen'] is None or rec['exhausted'] or len(rec['graph']) > 12 or len(rec['subgraph']) > 14:
+            continue
+        try:
+            try:
+                arm(seconds)
+                for _ in range(limit):
+                    if next(rec['gen'], None) is None:
+                        break
+            finally:
+                disarm()
+        except CaseTimeout:
+            disarm()
+            rec['gen'] = None
+            chk.count('more_answers_timeout')
+        chk.count('answers_recorded=%d' % min(len(rec['answers']), 4))
+
+
+def cache_transparent(spy):
+    """the symmetry cache shared by the residues of a molecule does not exist in the model: the first answer must be
+    the one a matcher without cache gives"""
+    errs = []
+    for i, rec in enumerate(spy.ismags):
+        if i == 0 or len(rec['graph']) > 24 or not rec['answers'] or rec['node_match'] is None:
+            continue
+        try:
+            try:
+                arm(1.0)
+                fresh = next(REAL_ISMAGS(rec['graph'], rec['subgraph'], node_match=rec['node_match']).largest_common_subgraph(), None)
+            finally:
+                disarm()
+            chk.count('cache_transparency_checked')
+            if fresh is None or list(fresh.items()) != rec['answers'][0]:
+                errs.append('residue #%d: with the symmetry cache shared in the molecule the matcher answered %s, '
+                            'without cache %s' % (i, rec['answers'][0], fresh))
+        except CaseTimeout:
+            disarm()
+            chk.count('cache_transparency_timeout')
+        if any(r['cache'] is not spy.ismags[0]['cache'] for r in spy.ismags):
+            errs.append('the residues of one molecule do not share one symmetry cache')
+    return errs
+
+
+def graph_enc(g):
+    return [[[n, elcode(g.nodes[n].get('element'))] for n in g.nodes], sorted(sorted(e) for e in g.edges)]
+
+
+def ref_lines(mol_in, pre, res):
+    """-> [(case kind, protocol line, canonical string of what the real code did)]"""
+    out = []
+    spy, snap, status = res['spy'], res['snap'], res['status']
+    ff = mol_in.force_field
+    failed = status.startswith('error')
+    by_residx = {r['residx']: r for r in snap['residues']} if snap else {}
+    mods_all, seen_mods = [], set()
+    for i, req in enumerate(pre['reqs']):
+        if i >= len(spy.getref):
+            break
+        g = spy.getref[i]
+        base = pre['blocks'].get(req['target'])
+        observed = g['block']['names'][base[2]:] if 'block' in g and base else None
+        mods = enc_mods(ff, req, observed)
+        for m in mods:
+            if m[0] not in seen_mods:
+                seen_mods.add(m[0])
+                mods_all.append(m)
+        ln = line('getref', req['resname'], req['mutation'], req['modification'],
+                  [[req['target']] + base[:2]] if base else [], mods)
+        if 'error' in g:
+            where = 'block' if req['target'] not in ff.blocks else 'modification'
+            impl = err_kind(status, res['records'], where)
+        else:
+            impl = enc(g['block']['nodes']) + ' ' + enc(g['block']['edges'])
+        out.append(('getref-%d' % i, ln, impl))
+        ad, rl, rec, ncalls = spy.of_residue(i)
+        if 'error' in g or not ad:
+            break
+        refpre = ad[0]
+        idx = {n[0]: j for j, n in enumerate(refpre['nodes'])}
+        refatoms = [[idx[n], nm, elcode(el) if has else None] for n, nm, el, has in refpre['nodes']]
+        refedges = [[idx[u], idx[v]] for u, v in refpre['edges']]
+        answers = [[[a, b] for a, b in ans] for ans in rec['answers']] if rec else []
+        req['answers'] = answers
+        ln = line('mkref', req['atoms'], req['edges'], refatoms, refedges, answers)
+        if rec is None or len(rl) != 2:
+            if failed and i == len(spy.getref) - 1:
+                impl = err_kind(status, res['records'], '')
+            else:
+                # make_reference went on without asking the matcher exactly once through the relabelled graphs
+                impl = 'matcher-calls=%d relabellings=%d match=%s' % (ncalls, len(rl), by_residx[i]['match'] if i in by_residx else None)
+        else:
+            rl_res, rl_ref = rl
+            matrix = [''.join('1' if rec['node_match'](rec['graph'].nodes[a], rec['subgraph'].nodes[b]) else '0'
+                              for b in rec['subgraph'].nodes) for a in rec['graph'].nodes]
+            sub, gr = graph_enc(rec['subgraph']), graph_enc(rec['graph'])
+            if i in by_residx:
+                match = by_residx[i]['match']
+            else:
+                match = None      # no answer: the residue was skipped
+            impl = ' '.join([enc([k for k, _ in rl_res[1]]), enc([idx[k] for k, _ in rl_ref[1]]),
+                             enc(sub[0]), enc(sub[1]), enc(gr[0]), enc(gr[1]), enc(matrix)]
+                            + ([enc(match)] if not failed else ['*']))
+        out.append(('mkref-%d' % i, ln, impl))
+        if rec is None and failed and i == len(spy.getref) - 1:
+            break
+    # the whole pipeline
+    if status == 'ok' or failed:
+        reqs = [[r['found'], r['resname'], r['mutation'], r['modification'], r['common'], r.get('answers', [])]
+                for r in pre['reqs']]
+        ln = line('pipeline', pre['nodes'], pre['edges'], [[n] + b[:2] for n, b in pre['blocks'].items()], mods_all,
+                  reqs, pre['redges'])
+        if status == 'ok':
+            impl = canon_result(res) + ' ' + enc(snap['kept']) + ' ' + enc(snap['rg_edges'])
+        else:
+            i = len(spy.getref) - 1
+            g = spy.getref[i] if i >= 0 else {}
+            where = 'block' if i >= 0 and pre['reqs'][i]['target'] not in ff.blocks else 'modification'
+            kind = err_kind(status, res['records'], where)
+            if kind in ('error no-name', 'error no-alpha', 'error name-none'):
+                kind = 'error no-element'
+            impl = 'residue %d %s' % (i, kind)
+        out.append(('pipeline', ln, impl))
+    return out
+
+
+def mcis_lines(mol_in, pre, res):
+    """-> [(residue index, number of answers, protocol line)]: is every recorded answer (mapped back) a maximum common
+    induced subgraph of residue and reference on element colours, according to the Lean reference?"""
+    out = []
+    spy, snap = res['spy'], res['snap']
+    by_residx = {r['residx']: r for r in snap['residues']}
+    for i, req in enumerate(pre['reqs']):
+        ad, rl, rec, ncalls = spy.of_residue(i)
+        if rec is None or len(rl) != 2:
+            continue
+        if len(rec['graph']) > 10 or len(rec['subgraph']) > 13:
+            continue
+        old_res = {new: old for old, new in rl[0][1]}
+        refnodes = rl[1][0]
+        idx = {n: j for j, n in enumerate(refnodes)}
+        old_ref = {new: idx[old] for old, new in rl[1][1]}
+        gn = [[old_res[n], elcode(rec['subgraph'].nodes[n].get('element'))] for n in rec['subgraph'].nodes]
+        ge = [[old_res[u], old_res[v]] for u, v in rec['subgraph'].edges]
+        sn = [[old_ref[n], elcode(rec['graph'].nodes[n].get('element'))] for n in rec['graph'].nodes]
+        se = [[old_ref[u], old_ref[v]] for u, v in rec['graph'].edges]
+        sn = bfs_order(sn, se)
+        out.append((i, len(rec['answers']),
+                    line('mcismem', gn, ge, sn, se, [[[old_ref[a], old_res[b]] for a, b in ans] for ans in rec['answers']])))
+    return out
+
+
+def expected_status(mol_in, pre):
+    """independent statement of which requests the repair must refuse (first refusal in residue order), or 'ok';
+    None = no expectation"""
+    ff = mol_in.force_field
+    for req in pre['reqs']:
+        mu, mods = req['mutation'], req['modification']
+        if mu is not None:
+            if not mu:
+                return 'IndexError'
+            if any(x != mu[0] for x in mu):
+                return 'ValueError:Can only mutate'
+        if req['target'] not in ff.blocks:
+            return 'KeyError'
+        blk = ff.blocks[req['target']]
+        real_mods = [m for m in (mods or []) if m != 'none']
+        for j, m in enumerate(real_mods):
+            if m not in ff.modifications:
+                return 'KeyError'
+            if j > 0:
+                return None
+            if not mod_fits(blk, ff.modifications[m]):
+                return 'ValueError:Cannot apply modification'
+        for n in list(blk.nodes) if not real_mods else []:
+            d = blk.nodes[n]
+            if 'element' not in d and first_letter(d.get('atomname')) is None:
+                return 'ValueError:Cannot guess' if d.get('atomname', 0) is not None else 'TypeError'
+        for n, nm, el in req['atoms']:
+            if el is None and first_letter(nm) is None:
+                return 'TypeError' if nm is None else 'ValueError:Cannot guess'
+    return 'ok'
+
+
+def explain_ref(impl, model):
+    try:
+        a, b = dec(impl), dec(model)
+    except Exception:
+        return 'code %s / model %s' % (clip(impl, 300), clip(model, 300))
+    if len(a) != len(b):
+        return 'code %s / model %s' % (clip(str(a), 400), clip(str(b), 400))
+    for i, (x, y) in enumerate(zip(a, b)):
+        if x != y:
+            if isinstance(x, list) and isinstance(y, list):
+                for j, (p_, q_) in enumerate(zip(x, y)):
+                    if p_ != q_:
+                        return 'field %d[%d]: code %r, model %r' % (i, j, p_, q_)
+                return 'field %d: code has %d entries, model %d' % (i, len(x), len(y))
+            return 'field %d: code %r model %r' % (i, x, y)
+    return 'no difference found after decoding'
+
+
 def explain(impl, model):
     """first difference between the two canonical strings, decoded"""
     try:
@@ -626,7 +1229,7 @@ def gen_specs(rng):
             xk = 4 if n <= 15 else 2      # extra atoms with names kept (timing bounds of DESIGN 5.4)
             pres = [
                 dict(names='x'), dict(names='shuffle'), dict(perm=True), dict(names='x', perm=True),
-                dict(names='shuffle', perm=True), dict(names='swap'),
+                dict(names='shuffle', perm=True), dict(names='swap'), dict(names='swapdeg', perm=rng.random() < 0.5),
                 dict(names='keep', perm=True, missing=rng.randint(1, 4)),
                 dict(names='keep', extra=rng.randint(1, xk)),
                 dict(names='keep', perm=True, missing=rng.randint(1, 4), extra=rng.randint(1, xk)),
@@ -637,7 +1240,7 @@ def gen_specs(rng):
                 dict(names='keep', missing_h=rng.randint(2, 6)),
             ]
             if not chk.thorough:
-                pres = rng.sample(pres[:6], 3) + rng.sample(pres[6:], 4)
+                pres = rng.sample(pres[:7], 3) + rng.sample(pres[7:], 4)
                 if big and b not in aa:
                     # name-scrambled symmetric lipids/sugars above 20 atoms run into the ISMAGS time-out: thorough tier only
                     pres = [p for p in pres if p.get('names', 'keep') in ('keep', 'swap')]
@@ -741,17 +1344,94 @@ def presentation_differs(spec):
                 or r.get('extra') or r.get('mutate') or r.get('modify'))
 
 
+# A modification atom that cannot be rebuilt (its component of the patched reference has no atom in the residue): the
+# error message of repair_residue reads reference.nodes[idx]['resname'], which modification atoms do not have ->
+# KeyError('resname').  Not reachable with the shipped modifications (every added atom is bonded to an anchor).  The
+# case is generated only once the finding is registered in known_findings.json.
+F_LOST_MOD_ATOM = 'F-C04-1'
+
+
+def ref_specs(rng):
+    """make_reference itself: degenerate references (empty block, nothing in common, disconnected block, block without
+    elements), atoms without element / without name, equal names, refused requests (mutated twice, modification that
+    does not fit, unknown modification), modifications of the synthetic force field"""
+    specs = []
+
+    def add(rs, **kw):
+        specs.append(dict(dict(residues=rs, seed=rng.randrange(10 ** 9), keys=rng.choice(['dense', 'sparse', 'random']),
+                               include_graph=rng.random() < 0.3), **kw))
+    S = 'synth'
+    eth = dict(ff=S, block='ETH')
+    for resname in ('EMP', 'XEN'):
+        # no match at all: alone, and bonded to / between ordinary residues (fix 4abf057)
+        add([dict(eth, resname=resname, names=rng.choice(['keep', 'x']))])
+        add([dict(ff=S, block='PRO3', names='x', perm=True), dict(eth, resname=resname), dict(ff=S, block='ETH', missing=1)])
+        add([dict(eth, resname=resname, perm=True), dict(ff=S, block='PRO3', missing=2, extra=1)])
+    add([dict(ff=S, block='XEN', resname='ETH')])
+    # disconnected reference: a component without any atom present cannot be rebuilt
+    for _ in range(3):
+        add([dict(ff=S, block='DIS', names=rng.choice(['keep', 'x']), perm=True, missing=rng.randint(1, 4))])
+    add([dict(ff=S, block='ETH', resname='DIS', names='x')])
+    # elements guessed from the names (reference and residue)
+    add([dict(ff=S, block='NOELX', resname='NOEL', names='keep')])
+    add([dict(ff=S, block='NOELX', resname='NOEL', names='keep', noelem=4, perm=True)])
+    add([dict(ff=S, block='NOELX', resname='NOEL', names='x', perm=True, extra=1)])
+    for ffname in ('charmm', 'amber', S):
+        pool = [b for b in (['ETH', 'PRO3'] if ffname == S else ['GLY', 'ALA', 'SER', 'VAL', 'THR', 'ASP', 'ASN', 'CYS'])
+                if b in get_ff(ffname)[1]]
+        for _ in range(6 if chk.thorough else 2):
+            b = rng.choice(pool)
+            add([dict(ff=ffname, block=b, names='keep', perm=rng.random() < 0.5, noelem=rng.randint(1, 4),
+                      missing_h=rng.randint(0, 1))])
+            add([dict(ff=ffname, block=b, names=rng.choice(['keep', 'x']), perm=True, noname=rng.randint(1, 2),
+                      nonename=rng.randint(0, 2), missing=rng.randint(0, 1))])
+            add([dict(ff=ffname, block=b, names='dup', perm=rng.random() < 0.5, missing=rng.randint(0, 1))])
+            add([dict(ff=ffname, block=b, names='swapdeg', perm=rng.random() < 0.5)])
+            add([dict(ff=ffname, block=b, names='keep', unguessable=rng.choice(['digit', 'absent', 'none']))])
+    # refused requests
+    for ffname in ('charmm', 'amber'):
+        good = FFS[ffname][1]
+        prot = [b for b in AA if b in good and len(good[b]) <= 16]
+        for _ in range(4 if chk.thorough else 2):
+            a, b, c = rng.sample(prot, 3)
+            add([dict(ff=ffname, block=a, mutate=[b, c], names='keep')])
+            add([dict(ff=ffname, block=a, mutate=[b, b], names=rng.choice(['keep', 'x']), missing_h=1)], keys='sparse')
+            add([dict(ff=ffname, block='GLY', names='x'), dict(ff=ffname, block=a, mutate=[b, c, b])])
+        add([dict(ff=ffname, block=rng.choice(prot), mutate=[])])
+        mods = sorted(FFS[ffname][0].modifications)
+        for _ in range(8 if chk.thorough else 3):
+            b, m = rng.choice(prot), rng.choice(mods)
+            add([dict(ff=ffname, block=b, modify=[m], names='keep', missing_h=rng.randint(0, 1))])
+        add([dict(ff=ffname, block=rng.choice(prot), modify=['NOSUCHMOD'])])
+        add([dict(ff=ffname, block=rng.choice(prot), modify=['none'], names='x')])
+        add([dict(ff=ffname, block=rng.choice(prot), mutate='ZZZ')])
+    bare = ['GOOD', 'TWO', 'FIRST', 'BADA', 'BADB', 'NOANCH', 'DUP']
+    if any(k['id'] == F_LOST_MOD_ATOM and k.get('status') == 'known' for k in chk.known):
+        bare.append('NOA')
+    for m in bare:
+        add([dict(eth, modify=[m], names=rng.choice(['keep', 'x']), perm=rng.random() < 0.5)])
+    add([dict(eth, modify=['NOA'], with_mod=True, names='x', perm=True)])
+    for m in ('GOOD', 'TWO', 'FIRST'):
+        add([dict(eth, modify=[m], with_mod=True, names='x', perm=True)])
+        add([dict(eth, modify=[m], with_mod=True, names='keep', missing_ptm=1)])
+    add([dict(eth, modify=['GOOD', 'FIRST'], names='keep')])
+    add([dict(eth, modify=['none', 'TWO'], mutate='ETH', names='x')])
+    return specs
+
+
 all_specs = list(corpus_specs())
+all_specs += [('ref-%d' % i, s) for i, s in enumerate(ref_specs(chk.rng('make_reference')))]
 rng = chk.rng('presentations')
 all_specs += [('gen-%d' % i, s) for i, s in enumerate(gen_specs(rng))]
 
-pending = []   # (cid, spec, mol_in, info, res)
+pending = []   # (cid, spec, mol_in, info, res, qs)
+finding_of = {}
 timed_out_blocks = set()
 patch_cases = []  # (cid, protocol line, reference of the real code by atom names)
 lines = []
-t_budget = 780 if chk.thorough else 55
+t_budget = 780 if chk.thorough else 63
 for cid, spec in all_specs:
-    if chk.elapsed() > t_budget and not cid.startswith('corpus'):
+    if chk.elapsed() > t_budget and cid.startswith('gen'):
         chk.count('skipped_for_time')
         continue
     r0 = spec['residues'][0]
@@ -766,6 +1446,8 @@ for cid, spec in all_specs:
         chk.notes.append('spec skipped (%r): %s' % (err, cid))
         continue
     mol_in = mol.copy()
+    pre = prepare_inputs(mol_in)
+    expected = expected_status(mol_in, pre)
     res = run_real(mol, spec.get('include_graph', False))
     chk.count('status_' + res['status'].split(':')[0])
     if os.environ.get('VERIF_DEBUG') and res['dt'] > 1.0:
@@ -773,6 +1455,10 @@ for cid, spec in all_specs:
     r0 = spec['residues'][0]
     chk.count('names_%s%s' % (r0.get('names', 'keep'), '+perm' if r0.get('perm') else ''))
     chk.count('ff_' + r0['ff'])
+    for r in spec['residues']:
+        for feat in ('noelem', 'noname', 'nonename', 'unguessable'):
+            if r.get(feat):
+                chk.count('feature_' + feat)
     if res['status'] == 'timeout':
         chk.count('inconclusive_timeout')
         timed_out_blocks.update((r['ff'], r['block']) for r in spec['residues'] if r.get('names', 'keep') in ('x', 'shuffle'))
@@ -780,26 +1466,32 @@ for cid, spec in all_specs:
         continue
     if res['status'].startswith('error'):
         kind = res['status'].split(':')[1]
-        # modification does not fit: raised by design (not for the ones the harness found applicable)
-        expected = bool(r0.get('modify')) and kind == 'ValueError' and not r0.get('with_mod')
         chk.count('error_' + kind)
-        if expected:
-            continue
-        chk.case(cid, json.dumps(spec, sort_keys=True), res['status'], None,
-                 ['the repair raised %s' % res['status']], True)
+        errs = []
+        if expected is None:
+            chk.count('error_without_expectation')
+        elif res['status'] == "error:KeyError:'resname'" and any(m == 'NOA' for r in spec['residues'] for m in r.get('modify') or []):
+            finding_of[cid] = F_LOST_MOD_ATOM
+            errs.append('the repair raised %s while reporting a modification atom it could not rebuild' % res['status'])
+        elif expected == 'ok' or not res['status'][len('error:'):].startswith(expected):
+            errs.append('the repair raised %s (expected by the request itself: %s)' % (res['status'], expected))
+        else:
+            chk.count('refused_as_expected_%s' % expected.split(':')[-1].replace(' ', '_'))
+        pending.append((cid, spec, mol_in, info, res, dict(repair=None, ref=ref_lines(mol_in, pre, res), mcis=[], errs=errs)))
         continue
+    errs = []
+    if expected not in (None, 'ok'):
+        errs.append('the request must be refused (%s) but the repair went through' % expected)
     snap = res['snap']
+    pull_more_answers(res['spy'])
+    errs += cache_transparent(res['spy'])
     ln = line('repair', snap['nodes'], snap['edges'],
               [[r['bnodes'], r['bedges'], r['found'], r['match'], r['common']] for r in snap['residues']])
-    qs = [ln]
-    # maximality against the Lean reference where it is small enough
-    for r in snap['residues']:
-        if len(r['bnodes']) <= 10 and len(r['found']) <= 13:
-            qs.append(mcis_line(r, snap))
-            chk.count('mcis_queries')
-        else:
-            qs.append(None)
-    if len(spec['residues']) == 1 and r0.get('modify') and not r0.get('mutate'):
+    qs = dict(repair=ln, ref=ref_lines(mol_in, pre, res), mcis=mcis_lines(mol_in, pre, res), errs=errs)
+    chk.count('mcis_queries', len(qs['mcis']))
+    if len(snap['kept']) < len(pre['reqs']):
+        chk.count('residue_without_match_skipped', len(pre['reqs']) - len(snap['kept']))
+    if len(spec['residues']) == 1 and r0.get('modify') and not r0.get('mutate') and snap['residues']:
         rn, re_ = ref_by_name(snap['residues'][0]['ref'])
         patch_cases.append((cid, patch_line(r0), enc([rn, [list(e) for e in re_]])))
         chk.count('modification_%s' % '+'.join(r0['modify']))
@@ -811,38 +1503,96 @@ for cid, spec in all_specs:
     chk.count('extra=%d' % len(info[0]['extras']))
     pending.append((cid, spec, mol_in, info, res, qs))
 
-flat = [q for p in pending for q in p[5] if q is not None]
+flat = []
+for p in pending:
+    q = p[5]
+    flat += ([q['repair']] if q['repair'] else []) + [x[1] for x in q['ref']]
+if os.environ.get('VERIF_DEBUG'):
+    print('real runs done at %.1f s; %d model lines' % (chk.elapsed(), len(flat)), flush=True)
+    open('/tmp/c04_lines.txt', 'w').write('\n'.join(flat) + '\n')
 answers = chk.drv.ask(flat) if chk.lean_ok else [None] * len(flat)
+
+
+def ask_with_timeout(lines, seconds):
+    """the exhaustive Lean reference can be slow on an unlucky pair of graphs: bounded, inconclusive when cut off"""
+    if not lines or not chk.lean_ok or not os.path.exists(chk.drv.exe):
+        return {}
+    try:
+        p = subprocess.run([chk.drv.exe], cwd=LEAN_DIR, input='\n'.join(lines) + '\n', stdout=subprocess.PIPE,
+                           stderr=subprocess.PIPE, text=True, timeout=seconds)
+        out = p.stdout.split('\n')
+    except subprocess.TimeoutExpired as err:
+        chk.count('mcis_reference_timeout')
+        chk.notes.append('Lean reference for the matcher cut off after %d s (inconclusive for the unanswered queries)' % seconds)
+        out = (err.stdout or b'').decode().split('\n')[:-1] if isinstance(err.stdout, bytes) else (err.stdout or '').split('\n')[:-1]
+    return {l: o for l, o in zip(lines, out) if o}
+
+
+mcis_answers = ask_with_timeout([x[2] for p in pending for x in p[5]['mcis']], 600 if chk.thorough else 60)
+if os.environ.get('VERIF_DEBUG'):
+    print('model answers at %.1f s' % chk.elapsed(), flush=True)
 ans = iter(answers)
 for cid, spec, mol_in, info, res, qs in pending:
-    model = next(ans)
-    impl = canon_result(res)
-    errs = oracle(mol_in, info, res)
-    for r, q in zip(res['snap']['residues'], qs[1:]):
-        if q is None:
-            continue
-        size = next(ans)
-        if size is None:
-            continue
-        found = set(r['found'])
-        got = len([1 for _, k in r['match'] if k in found])
-        if str(got) != size:
-            errs.append('residue %s: make_reference matched %d atoms, the largest common induced subgraph has %s'
-                        % (r['resid'], got, size))
-        else:
-            chk.count('mcis_size_confirmed')
-    added = sum(1 for k in res['out'].nodes if k not in mol_in.nodes)
-    flagged = sum(1 for k in res['out'].nodes if res['out'].nodes[k].get('PTM_atom'))
-    chk.count('added_atoms=%s' % ('0' if not added else '1-3' if added <= 3 else '>3'))
-    chk.count('flagged=%s' % ('0' if not flagged else '>0'))
-    if any(ev[0] == 'lost' for ev in canon_events(res['records'])):
-        chk.count('could_not_reconstruct')
+    sp_json = json.dumps(spec, sort_keys=True)
     nontriv = len(mol_in) >= 4 and presentation_differs(spec)
-    chk.case(cid, json.dumps(spec, sort_keys=True), impl, model, errs, nontriv)
+    errs = list(qs['errs'])
+    if qs['repair']:
+        model = next(ans)
+        impl = canon_result(res)
+        errs += oracle(mol_in, info, res)
+    else:
+        model, impl = None, res['status']
+    # the models of make_reference, _get_reference_residue and of the whole pipeline
+    for kind, ln, rimpl in qs['ref']:
+        rmodel = next(ans)
+        if rimpl.endswith(' *') and rmodel is not None and not rmodel.startswith('error'):
+            # make_reference raised at a later residue: the match of this one was not observed
+            rmodel = ' '.join(enc(x) for x in dec(rmodel)[:7]) + ' *'
+        chk.count('model_line_' + kind.split('-')[0])
+        chk.case('%s:%s' % (cid, kind), sp_json + ' ' + kind, rimpl, rmodel, [], nontriv)
+        if rmodel is not None and rmodel != rimpl:
+            chk.notes.append('%s:%s: %s' % (cid, kind, explain_ref(rimpl, rmodel)))
+            if os.environ.get('VERIF_DEBUG'):
+                print(chk.notes[-1][:1500], flush=True)
+    # every recorded answer of the matcher against the Lean reference (specification of the matcher)
+    for i, nans, q in qs['mcis']:
+        a = mcis_answers.get(q)
+        if a is None:
+            chk.count('mcis_reference_no_answer')
+            continue
+        try:
+            size, members = dec(a)
+            assert len(members) == nans
+        except Exception:
+            errs.append('residue #%d: the Lean reference could not read the matcher query: %s' % (i, clip(a, 200)))
+            continue
+        if nans == 0:
+            if size != 0:
+                errs.append('residue #%d: the matcher gave no answer although a common induced subgraph of %s atoms exists'
+                            % (i, size))
+            else:
+                chk.count('no_answer_confirmed_nothing_in_common')
+        elif size == 0:
+            errs.append('residue #%d: the matcher answered although residue and reference have nothing in common' % i)
+        for j, member in enumerate(members):
+            if member != 1:
+                errs.append('residue #%d: answer %d of the matcher (taken by make_reference: %s) is not a maximum common '
+                            'induced subgraph (maximum size %s)' % (i, j, j == 0, size))
+            else:
+                chk.count('mcis_size_confirmed' if j == 0 else 'later_answer_confirmed_maximum')
+    if qs['repair']:
+        added = sum(1 for k in res['out'].nodes if k not in mol_in.nodes)
+        flagged = sum(1 for k in res['out'].nodes if res['out'].nodes[k].get('PTM_atom'))
+        chk.count('added_atoms=%s' % ('0' if not added else '1-3' if added <= 3 else '>3'))
+        chk.count('flagged=%s' % ('0' if not flagged else '>0'))
+        if any(ev[0] == 'lost' for ev in canon_events(res['records'])):
+            chk.count('could_not_reconstruct')
+    chk.case(cid, sp_json, impl, model, errs, nontriv, finding=finding_of.get(cid))
     if errs or (model is not None and model != impl):
         chk.notes.append('%s: %s' % (cid, explain(impl, model) if model is not None and model != impl else errs[0]))
         if os.environ.get('VERIF_DEBUG'):
             print(chk.notes[-1][:1500], flush=True)
+
 
 # ---- the patched reference against the Lean model of _patch_modification (shared with C19) ----------------
 pans = chk.drv.ask([p[1] for p in patch_cases]) if chk.lean_ok and patch_cases else [None] * len(patch_cases)
@@ -858,6 +1608,187 @@ for (cid, ln, impl), mo in zip(patch_cases, pans):
     chk.case('patch-' + cid, ln, impl, model, [], True)
     if model is not None and model != impl:
         chk.notes.append('patch-%s: reference of the code %s / model %s' % (cid, clip(str(dec(impl)), 600), clip(str(try_dec(model)), 600)))
+
+# ---- whole peptides with the terminal modifications the command line requests -----------------------------
+# AnnotateMutMod(modifications=[('nter', 'N-ter'), ('cter', 'C-ter')]) (what martinize2 passes by default) followed by
+# RepairGraph, on a small peptide listed in several orders: residues N-to-C, C-to-N, permuted, all atoms interleaved,
+# random keys, names replaced.  The repaired peptide - atoms as (resid, canonical name, element), bonds between them,
+# marked atoms - must be the SAME for every listing, must be the complete patched peptide, and the terminal atoms must
+# sit on the residues with the lowest / highest resid.
+from vermouth.processors.annotate_mut_mod import AnnotateMutMod
+from vermouth.system import System
+
+
+def peptide_specs(rng):
+    specs = []
+    for ffname in ('charmm', 'amber'):
+        ff, good = FFS[ffname]
+        if 'N-ter' not in ff.modifications or 'C-ter' not in ff.modifications:
+            continue
+        pool = [b for b in ('GLY', 'ALA', 'SER', 'VAL', 'THR', 'ASP', 'ASN', 'CYS', 'LEU', 'ILE', 'GLU', 'MET')
+                if b in good and len(good[b]) <= 20
+                and expected_patch(good[b], [ff.modifications['N-ter']]) is not None
+                and expected_patch(good[b], [ff.modifications['C-ter']]) is not None]
+        for t in range(8 if chk.thorough else 3):
+            n = rng.randint(2, 4)
+            specs.append(dict(ff=ffname, seq=[rng.choice(pool) for _ in range(n)], resid0=rng.choice([1, 1, 7, 120]),
+                              missing_h=rng.choice([0, 0, 1, 2]), seed=rng.randrange(10 ** 9),
+                              scramble=all(len(good[b]) <= 12 for b in pool[:0]) or t == 0))
+    return specs
+
+
+def build_peptide(spec):
+    """-> atoms [(resid, name, element, resname, added by a terminal modification)], bonds [((resid, name), (resid, name))]"""
+    ff, good = FFS[spec['ff']]
+    atoms, bonds = [], []
+    last = len(spec['seq']) - 1
+    for i, resname in enumerate(spec['seq']):
+        resid = spec['resid0'] + i
+        mods = ([ff.modifications['N-ter']] if i == 0 else []) + ([ff.modifications['C-ter']] if i == last else [])
+        g = expected_patch(good[resname], mods) if mods else expected_patch(good[resname], [])
+        for nm in g.nodes:
+            atoms.append((resid, nm, g.nodes[nm]['element'], resname, bool(g.nodes[nm]['ptm'])))
+        for u, v in g.edges:
+            bonds.append(((resid, u), (resid, v)))
+        if i > 0:
+            bonds.append(((resid - 1, 'C'), (resid, 'N')))
+    return atoms, bonds
+
+
+def peptide_listings(spec, atoms, rng):
+    """the same peptide listed in different orders: [(label, atoms in order, key mode, rename)]"""
+    resids = sorted({a[0] for a in atoms})
+    out = [('n-to-c', list(atoms), 'dense', False)]
+    rev = sorted(atoms, key=lambda a: -a[0])
+    out.append(('c-to-n', rev, 'dense', False))
+    perm = resids[:]
+    rng.shuffle(perm)
+    if perm == resids:
+        perm = perm[1:] + perm[:1]
+    byres = {r: [a for a in atoms if a[0] == r] for r in resids}
+    lst = []
+    for r in perm:
+        block = byres[r][:]
+        rng.shuffle(block)
+        lst += block
+    out.append(('residues-%s' % ','.join(map(str, perm)), lst, 'random', False))
+    inter = list(atoms)
+    rng.shuffle(inter)
+    out.append(('interleaved', inter, 'dense', False))
+    if spec.get('scramble'):
+        inter2 = list(atoms)
+        rng.shuffle(inter2)
+        out.append(('interleaved-renamed', inter2, 'random', True))
+    return out
+
+
+def present_peptide(spec, atoms, bonds, order, keymode, rename, rng):
+    ff = FFS[spec['ff']][0]
+    mol = Molecule(force_field=ff)
+    index = {}
+    keys = list(range(len(order))) if keymode == 'dense' else rng.sample(range(500), len(order))
+    for i, (resid, name, element, resname, _) in enumerate(order):
+        index[resid, name] = keys[i]
+        mol.add_node(keys[i], atomname=('Q%d' % (i + 1)) if rename else name, element=element, resname=resname, resid=resid,
+                     chain='A', atomid=i + 1, position=np.array([float(i), 0.0, 0.0]))
+    mol.add_edges_from((index[u], index[v]) for u, v in bonds if u in index and v in index)
+    return mol
+
+
+def canon_peptide(out):
+    ident = {n: (out.nodes[n].get('resid'), out.nodes[n].get('atomname')) for n in out.nodes}
+    atoms = sorted((out.nodes[n].get('resid'), str(out.nodes[n].get('atomname')), str(out.nodes[n].get('element'))) for n in out.nodes)
+    bonds = sorted(tuple(sorted((ident[u], ident[v]), key=str)) for u, v in out.edges)
+    marked = sorted(ident[n] for n in out.nodes if out.nodes[n].get('PTM_atom'))
+    return atoms, bonds, marked
+
+
+pep_pending = []
+for pi, spec in enumerate(peptide_specs(chk.rng('peptides'))):
+    prng = random.Random(spec['seed'])
+    atoms, bonds = build_peptide(spec)
+    hs = [a for a in atoms if a[2] == 'H']
+    removed = set((a[0], a[1]) for a in prng.sample(hs, min(spec['missing_h'], len(hs))))
+    want_atoms = sorted((a[0], a[1], a[2]) for a in atoms)
+    want_bonds = sorted(tuple(sorted(b, key=str)) for b in bonds)
+    want_marked = sorted((a[0], a[1]) for a in atoms if a[4])
+    lo, hi = min(a[0] for a in atoms), max(a[0] for a in atoms)
+    runs = []
+    for label, order, keymode, rename in peptide_listings(spec, atoms, prng):
+        order = [a for a in order if (a[0], a[1]) not in removed]
+        mol = present_peptide(spec, atoms, bonds, order, keymode, rename, prng)
+        sysm = System(force_field=mol.force_field)
+        sysm.molecules = [mol]
+        quiet_vermouth_logs()
+        AnnotateMutMod(modifications=[('nter', 'N-ter'), ('cter', 'C-ter')]).run_system(sysm)
+        mol = sysm.molecules[0]
+        mol_in = mol.copy()
+        pre = prepare_inputs(mol_in)
+        res = run_real(mol, False)
+        chk.count('peptide_listing_%s' % label.split('-')[0])
+        chk.count('peptide_status_' + res['status'].split(':')[0])
+        runs.append((label, mol_in, pre, res))
+    pep_pending.append((pi, spec, runs, want_atoms, want_bonds, want_marked, lo, hi))
+
+pep_lines = []
+for pi, spec, runs, *_ in pep_pending:
+    for label, mol_in, pre, res in runs:
+        if res['status'] == 'timeout':
+            continue
+        if res['status'] == 'ok':
+            snap = res['snap']
+            pep_lines.append(line('repair', snap['nodes'], snap['edges'],
+                                  [[r['bnodes'], r['bedges'], r['found'], r['match'], r['common']] for r in snap['residues']]))
+        res['ref_lines'] = ref_lines(mol_in, pre, res)
+        pep_lines += [x[1] for x in res['ref_lines']]
+pep_ans = iter(chk.drv.ask(pep_lines) if chk.lean_ok and pep_lines else [None] * len(pep_lines))
+for pi, spec, runs, want_atoms, want_bonds, want_marked, lo, hi in pep_pending:
+    first = None
+    sp_json = json.dumps(spec, sort_keys=True)
+    for label, mol_in, pre, res in runs:
+        cid = 'peptide-%d:%s' % (pi, label)
+        errs = []
+        if res['status'] == 'timeout':
+            chk.count('inconclusive_timeout')
+            continue
+        if res['status'] != 'ok':
+            chk.case(cid, sp_json + ' ' + label, res['status'], None,
+                     ['peptide %s listed %s: the repair raised %s' % ('-'.join(spec['seq']), label, res['status'])], True)
+            for _ in res.get('ref_lines', []):
+                next(pep_ans)
+            continue
+        model = next(pep_ans)
+        impl = canon_result(res)
+        for kind, ln, rimpl in res['ref_lines']:
+            rmodel = next(pep_ans)
+            chk.count('model_line_' + kind.split('-')[0])
+            chk.case('%s:%s' % (cid, kind), sp_json + ' ' + label + ' ' + kind, rimpl, rmodel, [], True)
+            if rmodel is not None and rmodel != rimpl:
+                chk.notes.append('%s:%s: %s' % (cid, kind, explain_ref(rimpl, rmodel)))
+        got = canon_peptide(res['out'])
+        tag = 'peptide %s (resids %d..%d) listed %s: ' % ('-'.join(spec['seq']), lo, hi, label)
+        if got[0] != want_atoms:
+            errs.append(tag + 'atoms after the repair differ from the complete patched peptide: unexpected %s, absent %s'
+                        % (sorted(set(got[0]) - set(want_atoms))[:6], sorted(set(want_atoms) - set(got[0]))[:6]))
+        if got[1] != want_bonds:
+            errs.append(tag + 'bonds differ from the patched peptide: %s' % sorted(set(got[1]) ^ set(want_bonds), key=str)[:6])
+        if got[2] != want_marked:
+            errs.append(tag + 'atoms marked PTM_atom %s, the terminal modifications add %s' % (got[2], want_marked))
+        nter = [a for a in got[2] if a[0] != lo and a[1] in ('HN2', 'HN3')]
+        cter = [a for a in got[2] if a[0] != hi and a[1] == 'OXT']
+        if nter or cter:
+            errs.append(tag + 'terminal atoms on the wrong residue: %s (N terminus is resid %d, C terminus resid %d)'
+                        % (nter + cter, lo, hi))
+        if first is None:
+            first = (label, got)
+        elif got != first[1]:
+            errs.append(tag + 'the repaired peptide differs from the one obtained when it is listed %s '
+                        '(the result depends on the atom order)' % first[0])
+        chk.case(cid, sp_json + ' ' + label, impl, model, errs, True)
+        if errs or (model is not None and model != impl):
+            chk.notes.append('%s: %s' % (cid, explain(impl, model) if model is not None and model != impl else errs[0]))
+            if os.environ.get('VERIF_DEBUG'):
+                print(chk.notes[-1][:1500], flush=True)
 
 # ---- unknown residue: run_system deletes the molecule with a warning, or raises -------------------------
 from vermouth.system import System
@@ -885,5 +1816,53 @@ for i, (ffname, delete) in enumerate(itertools.product(['charmm', 'amber'], [Tru
     chk.count('unknown_residue_cases')
     chk.case('unknown-%d' % i, 'unknown-residue %s delete_unknown=%s' % (ffname, delete), outcome, None,
              [] if outcome == want else ['unknown residue: %s, expected %s' % (outcome, want)], False)
+
+# ---- the matcher on degenerate inputs (what make_reference relies on) -----------------------------------
+# specification used by the composed model: no answer <=> residue and reference have no atom of a common element
+# (for a non-empty residue); an empty residue gets the empty mapping; without symmetry reduction every answer is
+# still a maximum common induced subgraph.
+def _g(atoms, edges):
+    g = nx.Graph()
+    g.add_nodes_from((i, dict(element=e)) for i, e in enumerate(atoms))
+    g.add_edges_from(edges)
+    return g
+
+
+_nm = nx.isomorphism.categorical_node_match('element', None)
+_tri = _g(['C', 'C', 'O'], [(0, 1), (1, 2)])
+deg = [('empty-residue', _tri, _g([], []), True, [{}]),
+       ('empty-reference', _g([], []), _tri, True, []),
+       ('both-empty', _g([], []), _g([], []), True, [{}]),
+       ('nothing-in-common', _g(['Xe', 'Xe'], [(0, 1)]), _tri, True, [])]
+for name, graph, sub, symmetry, want in deg:
+    got = list(REAL_ISMAGS(graph, sub, node_match=_nm, cache={}).largest_common_subgraph(symmetry))
+    chk.count('matcher_degenerate_cases')
+    chk.case('matcher-' + name, 'largest_common_subgraph %s' % name, repr(got), None,
+             [] if got == want else ['matcher on %s: answers %r, expected %r' % (name, got, want)], False)
+drng = chk.rng('matcher-nosym')
+qs, keep = [], []
+for t in range(6):
+    n = drng.randint(3, 6)
+    atoms = [drng.choice('CCON') for _ in range(n)]
+    edges = [(i, drng.randrange(i)) for i in range(1, n)]
+    graph = _g(atoms, edges)
+    drop = drng.randrange(n)
+    sub = nx.relabel_nodes(graph.subgraph([i for i in range(n) if i != drop]).copy(),
+                           {i: 10 + i for i in range(n)})
+    sub.add_node(99, element=drng.choice('CS'))
+    sub.add_edge(99, drng.choice([x for x in sub.nodes if x != 99]))
+    for symmetry in (False, True):
+        got = list(REAL_ISMAGS(graph, sub, node_match=_nm, cache={}).largest_common_subgraph(symmetry))
+        gn = [[x, elcode(sub.nodes[x]['element'])] for x in sub.nodes]
+        sn = [[x, elcode(graph.nodes[x]['element'])] for x in graph.nodes]
+        for a in got:
+            qs.append(line('mcismem', gn, [list(e) for e in sub.edges], bfs_order(sn, [list(e) for e in graph.edges]),
+                           [list(e) for e in graph.edges], [[[x, y] for x, y in a.items()]]))
+            keep.append(('matcher-sym%d-%d' % (symmetry, t), a))
+for (cid, a), r in zip(keep, chk.drv.ask(qs) if chk.lean_ok and qs else [None] * len(qs)):
+    chk.count('matcher_direct_answers')
+    chk.case(cid, 'largest_common_subgraph %s %r' % (cid, a), repr(sorted(a.items())), None,
+             [] if r is None or r.endswith(' [ 1 ]') else ['%s: answer %r is not a maximum common induced subgraph (%s)' % (cid, a, r)],
+             False)
 
 chk.finish()
